@@ -303,15 +303,19 @@ impl Sim {
                     _ => panic!("recording wrapper differs from ChainRootMMR (proof result)"),
                 }
             }
-            "verify" => {
+            "verify" | "verifycut" => {
                 let rslot: u64 = t[1].parse().unwrap();
                 let pslot: u64 = t[2].parse().unwrap();
+                // verifycut <rslot> <pslot> <k> <pairs>: the last k proof items are dropped
+                let (cut, t3): (usize, &str) = if t[0] == "verifycut" { (t[3].parse().unwrap(), t[4]) } else { (0, t[3]) };
+                let t = { let mut v = t.clone(); if v.len() > 4 { v.remove(3); } v[3] = t3; v };
                 let pairs: Vec<(u64, u64)> = if t[3] == "-" { vec![] } else { t[3].split(',').map(|p| { let mut it = p.split(':'); (it.next().unwrap().parse().unwrap(), it.next().unwrap().parse().unwrap()) }).collect() };
                 out.count("verify");
                 let (Some(root), Some(proof)) = (self.roots.get(&rslot), self.proofs.get(&pslot)) else { panic!("verify: unknown slot in {line}") };
                 let leaves = self.leaves_of(&pairs);
-                let a = MerkleProof::<HeaderDigest, RecMerge>::new(proof.size, proof.items.clone()).verify(root.digest.clone(), leaves.clone());
-                let b = MerkleProof::<HeaderDigest, MergeHeaderDigest>::new(proof.size, proof.items.clone()).verify(root.digest.clone(), leaves);
+                let items: Vec<HeaderDigest> = proof.items[..proof.items.len().saturating_sub(cut)].to_vec();
+                let a = MerkleProof::<HeaderDigest, RecMerge>::new(proof.size, items.clone()).verify(root.digest.clone(), leaves.clone());
+                let b = MerkleProof::<HeaderDigest, MergeHeaderDigest>::new(proof.size, items).verify(root.digest.clone(), leaves);
                 let res = match (a, b) {
                     (Ok(x), Ok(y)) => { assert_eq!(x, y); Some(x) }
                     (Err(_), Err(_)) => None,
@@ -319,12 +323,17 @@ impl Sim {
                 };
                 // soundness: accepted => every claimed leaf is in the root's chain at that index, and the root is of that size
                 let all_in_chain = pairs.iter().all(|(i, id)| root.chain.get(*i as usize) == Some(id));
-                if res == Some(true) && !(all_in_chain && size_of_leaves(root.chain.len() as u64) == proof.size) {
+                // (the expectation applies to claims whose digest carries the block number of the claimed
+                // leaf index — the binding a verifier gets from `leaf_index_to_pos(header.number())`;
+                // `MerkleProof::verify` itself does not tie a leaf value to its position: see
+                // corpus/C19/mmr-position-not-bound.ops)
+                let well_formed = pairs.iter().all(|(i, id)| id % 10000 == *i);
+                if well_formed && res == Some(true) && !(all_in_chain && size_of_leaves(root.chain.len() as u64) == proof.size) {
                     out.oracle_fail("proof-accepted-for-wrong-chain", &format!("{line}: root over {} leaves, proof size {}", root.chain.len(), proof.size));
                 }
                 // completeness: right chain, right leaves, the proved set => accepted
                 let claimed: BTreeSet<u64> = pairs.iter().map(|p| p.0).collect();
-                if root.chain == proof.chain && all_in_chain && proof.idxs.as_ref() == Some(&claimed) && res != Some(true) {
+                if cut == 0 && root.chain == proof.chain && all_in_chain && proof.idxs.as_ref() == Some(&claimed) && res != Some(true) {
                     out.oracle_fail("valid-proof-rejected", &format!("{line}: {res:?}"));
                 }
                 match res { Some(true) => "true".into(), Some(false) => "false".into(), None => "err".to_string() }
@@ -462,6 +471,20 @@ fn gen_mmr_case(out: &mut Out, rng: &mut Rng, n_ops: usize, big: bool) {
                 let j = rng.below(bad.len() as u64) as usize;
                 bad[j] = format!("{}:{}", set[j], sim.chain[set[j] as usize] + 10000 * (1 + rng.below(3)));
                 emit(&mut sim, out, format!("verify {rs} {ps} {}", bad.join(",")));
+                if rng.chance(1, 4) {
+                    // truncated proof (last item(s) dropped), right leaves
+                    emit(&mut sim, out, format!("verifycut {rs} {ps} {} {}", rng.range(1, 2), good.join(",")));
+                }
+                if rng.chance(1, 6) {
+                    // a right header claimed at a neighbouring leaf index (its number no longer matches the position)
+                    let mut moved = good.clone();
+                    let j = rng.below(moved.len() as u64) as usize;
+                    let to = if set[j] > 0 && rng.chance(1, 2) { set[j] - 1 } else { set[j] + 1 };
+                    if !set.contains(&to) && to <= n {
+                        moved[j] = format!("{}:{}", to, sim.chain[set[j] as usize]);
+                        emit(&mut sim, out, format!("verify {rs} {ps} {}", moved.join(",")));
+                    }
+                }
                 match rng.below(4) {
                     0 if set.len() > 1 => {
                         // a leaf dropped
